@@ -11,3 +11,22 @@ pub fn mc_request(input: &[u8]) -> (bool, String) {
     let r: Result<passkey_types::ctap2::make_credential::Request, _> = ciborium::de::from_reader(input);
     (false, format!("returned {}", if r.is_ok() { "Ok" } else { "Err" }))
 }
+
+/// C15: decoding a CTAP2 getInfo response; reports the time taken (processing time must stay in proportion to the input)
+pub fn get_info_response(input: &[u8]) -> (bool, String) {
+    let t0 = std::time::Instant::now();
+    let r: Result<passkey_types::ctap2::get_info::Response, _> = ciborium::de::from_reader(input);
+    let ms = t0.elapsed().as_millis();
+    // a few hundred bytes of input decode in well under a millisecond; more than a second for them is out of proportion
+    (ms > 1000, format!("{} bytes decoded to {} in {} ms", input.len(), if r.is_ok() { "Ok" } else { "Err" }, ms))
+}
+
+/// C15: the public-key converter on a COSE key whose coordinates have the given lengths ("<xlen>,<ylen>"): a value or an error
+pub fn cose_der(arg: &str) -> (bool, String) {
+    use coset::{iana, CoseKeyBuilder};
+    let mut it = arg.split(',').map(|s| s.trim().parse::<usize>().unwrap_or(32));
+    let (xl, yl) = (it.next().unwrap_or(32), it.next().unwrap_or(32));
+    let key = CoseKeyBuilder::new_ec2_pub_key(iana::EllipticCurve::P_256, vec![0x11; xl], vec![0x22; yl]).algorithm(iana::Algorithm::ES256).build();
+    let r = passkey_authenticator::public_key_der_from_cose_key(&key);
+    (false, format!("x of {xl} byte(s), y of {yl} byte(s): returned {}", if r.is_ok() { "Ok" } else { "Err" }))
+}
